@@ -21,10 +21,16 @@ pub enum Query {
     Execute,
     /// check_resolved of the current resolved root
     CheckResolved,
+    /// executable_program / checked_program / materialize_arena called with an analysis handle
+    /// obtained *earlier* in the history (documented: only its root path is used; a stale
+    /// analysis re-checks its root)
+    ExecuteHeld,
+    CheckedProgramHeld,
+    MaterializeArenaHeld,
 }
 
 impl Query {
-    pub const ALL: [Query; 9] = [
+    pub const ALL: [Query; 12] = [
         Query::Graph,
         Query::Analyze,
         Query::Reports,
@@ -34,6 +40,9 @@ impl Query {
         Query::MaterializeArena,
         Query::Execute,
         Query::CheckResolved,
+        Query::ExecuteHeld,
+        Query::CheckedProgramHeld,
+        Query::MaterializeArenaHeld,
     ];
     pub fn label(&self) -> &'static str {
         match self {
@@ -46,6 +55,9 @@ impl Query {
             | Query::MaterializeArena => "materialize_arena",
             | Query::Execute => "execute",
             | Query::CheckResolved => "check_resolved",
+            | Query::ExecuteHeld => "execute(held)",
+            | Query::CheckedProgramHeld => "checked_program(held)",
+            | Query::MaterializeArenaHeld => "materialize_arena(held)",
         }
     }
     pub fn parse(text: &str) -> Option<Self> {
@@ -59,6 +71,9 @@ pub enum Op {
     ClearOverlay { slot: usize },
     /// write the file, then `refresh_disk`
     WriteRefresh { slot: usize, content: Content },
+    /// disk fault: rewrite the file with other bytes of the *same length* and restore its
+    /// modification time (cp -p, rsync -t, a coarse-timestamp file system), then `refresh_disk`
+    StampedWriteRefresh { slot: usize, content: Content },
     /// delete the file, then `refresh_disk`
     DeleteRefresh { slot: usize },
     /// disk fault: the path becomes a directory, then `refresh_disk`
@@ -85,6 +100,7 @@ impl Op {
             | Op::SetOverlay { .. } => "set_overlay",
             | Op::ClearOverlay { .. } => "clear_overlay",
             | Op::WriteRefresh { .. } => "write+refresh",
+            | Op::StampedWriteRefresh { .. } => "fault:same-size-same-mtime-write+refresh",
             | Op::DeleteRefresh { .. } => "delete+refresh",
             | Op::FaultDirectory { .. } => "fault:directory+refresh",
             | Op::FaultGarbage { .. } => "fault:garbage+refresh",
@@ -100,7 +116,11 @@ impl Op {
     pub fn is_fault(&self) -> bool {
         matches!(
             self,
-            Op::FaultDirectory { .. } | Op::FaultGarbage { .. } | Op::SilentWrite { .. } | Op::SilentDelete { .. }
+            Op::FaultDirectory { .. }
+                | Op::FaultGarbage { .. }
+                | Op::SilentWrite { .. }
+                | Op::SilentDelete { .. }
+                | Op::StampedWriteRefresh { .. }
         )
     }
 
@@ -113,6 +133,7 @@ impl Op {
             | Op::SetOverlay { slot, .. }
             | Op::ClearOverlay { slot }
             | Op::WriteRefresh { slot, .. }
+            | Op::StampedWriteRefresh { slot, .. }
             | Op::DeleteRefresh { slot }
             | Op::FaultDirectory { slot }
             | Op::FaultGarbage { slot }
@@ -126,9 +147,10 @@ impl Op {
 
     pub fn content(&self) -> Option<&Content> {
         match self {
-            | Op::SetOverlay { content, .. } | Op::WriteRefresh { content, .. } | Op::SilentWrite { content, .. } => {
-                Some(content)
-            }
+            | Op::SetOverlay { content, .. }
+            | Op::WriteRefresh { content, .. }
+            | Op::StampedWriteRefresh { content, .. }
+            | Op::SilentWrite { content, .. } => Some(content),
             | _ => None,
         }
     }
@@ -172,6 +194,7 @@ impl Op {
             | "set_overlay" => Op::SetOverlay { slot: slot()?, content: content()? },
             | "clear_overlay" => Op::ClearOverlay { slot: slot()? },
             | "write+refresh" => Op::WriteRefresh { slot: slot()?, content: content()? },
+            | "fault:same-size-same-mtime-write+refresh" => Op::StampedWriteRefresh { slot: slot()?, content: content()? },
             | "delete+refresh" => Op::DeleteRefresh { slot: slot()? },
             | "fault:directory+refresh" => Op::FaultDirectory { slot: slot()? },
             | "fault:garbage+refresh" => Op::FaultGarbage { slot: slot()? },
@@ -204,6 +227,16 @@ impl Op {
                 true
             }
             | Op::WriteRefresh { .. } | Op::Refresh { .. } => true,
+            // only meaningful over an existing regular file of exactly the same length
+            | Op::StampedWriteRefresh { slot, content } => match &model.slots[*slot].disk {
+                | Disk::File(old) => {
+                    old.imports.is_empty()
+                        && content.imports.is_empty()
+                        && old.template.len() == content.template.len()
+                        && old.template != content.template
+                }
+                | _ => false,
+            },
             | Op::DeleteRefresh { slot } => !model.pinned(*slot),
             // `g/` exists exactly while `g/h.zy` does, and a path's identity depends on which
             // of its ancestors exist: disk and view of that slot must never diverge
@@ -260,7 +293,7 @@ pub fn apply_to_model(model: &mut Model, op: &Op) -> Option<RefreshExpect> {
             }
             None
         }
-        | Op::WriteRefresh { slot, content } => {
+        | Op::WriteRefresh { slot, content } | Op::StampedWriteRefresh { slot, content } => {
             model.slots[*slot].disk = Disk::File(content.clone());
             model.slots[*slot].status = Status::Touched(Some(content.clone()));
             Some(RefreshExpect::Ok)
